@@ -924,6 +924,63 @@ func pageSlotOfOneSequence(c *eng.Ctx) {
 	if total < 4 {
 		c.Undecided("expected >= 4 page/slot pairs, found %d", total)
 	}
+	// the readers take the entry from the page they looked up for s / N - not from whatever index page the writer has cached
+	for _, fk := range []string{qT + ".Get", qT + ".GC", qT + ".initDataPageIndex"} {
+		f := c.Fn(fk)
+		var rem []ssa.Value
+		for _, b := range eng.BlocksT(f) {
+			for _, in := range b.Instrs {
+				if bo, ok := in.(*ssa.BinOp); ok && bo.Op == token.REM {
+					if k, isC := eng.ConstInt(bo.Y); isC && k == nv {
+						rem = append(rem, bo)
+					}
+				}
+			}
+		}
+		stores := p.SitesT(f, eng.StoreField(qT+".indexPage"))
+		n := 0
+		for _, b := range eng.BlocksT(f) {
+			for _, in := range b.Instrs {
+				cl, ok := in.(*ssa.Call)
+				if !ok || !cl.Common().IsInvoke() || !strings.HasPrefix(cl.Common().Method.Name(), "Read") || len(cl.Common().Args) == 0 {
+					continue
+				}
+				if !eng.DependsOn(cl.Common().Args[0], func(x ssa.Value) bool {
+					for _, r := range rem {
+						if x == r {
+							return true
+						}
+					}
+					return false
+				}) {
+					continue
+				}
+				n++
+				okPage, what := true, ""
+				for _, src := range leafSources(cl.Common().Value) {
+					src = eng.Unwrap(src)
+					if ex, isEx := src.(*ssa.Extract); isEx {
+						src = ex.Tuple
+					}
+					if sc, isCall := src.(*ssa.Call); isCall && (calleeName(sc) == "GetPage" || calleeName(sc) == "AcquirePage") {
+						continue // a page looked up here: its number is checked by the same-sequence clauses above
+					}
+					if in2, isIn := src.(ssa.Instruction); isIn && eng.LoadField(qT+".indexPage")(p, in2) {
+						if len(stores) > 0 && eng.DominatedBy(f, cl, stores, nil) {
+							continue // the cached page was (re)acquired by this function before the read
+						}
+						okPage, what = false, "q.indexPage (the writer's cached page), which "+fk+" did not acquire before the read"
+						continue
+					}
+					okPage, what = false, p.Desc(src)
+				}
+				c.Check(okPage, fmt.Sprintf("%s:entry-read-from-the-looked-up-page[%d]", fk, n), cl, f,
+					"an index entry is read from the page that was looked up (or acquired) for s / indexItemsPerPage in this function: the writer's cached index page holds the entries of the sequences being appended, a lagging acknowledged or requested sequence lives in an earlier page",
+					"the entry is read from "+what)
+			}
+		}
+		c.Check(n >= 1, fk+":entry-reads-found", nil, f, fk+" reads an index entry", "")
+	}
 }
 
 func failedAcquireLeavesCursor(c *eng.Ctx) {
